@@ -90,6 +90,15 @@ func (a *Analysis) inlinableShared(fn *FuncInfo) bool {
 	if a.ncalls[fn] < 2 || a.ncalls[fn] > 3 || a.escapes[fn] || a.pure[fn] {
 		return false
 	}
+	// (not the functions that start an epoch: the rules read "an epoch was entered here" off their call events)
+	if fn == a.epochWriter {
+		return false
+	}
+	for _, s := range a.FnSites[fn] {
+		if s.Kind == "call" && s.Target != nil && s.Target == a.epochWriter {
+			return false
+		}
+	}
 	// (a cycle through it — the answer may end in a ChangeView, whose sender re-requests transactions — is cut by the
 	// walker's inlining depth, below which the summary is used)
 	return stmtCount(fn.Decl.Body) <= 25
